@@ -56,6 +56,10 @@ CHECKS = {
    technique='symbolic execution of the lowered Sample.integral / Sample.bind on z3-symbolic per-element integrand coefficients vs an explicit enumeration of (element, point, weight) from the definition of the sample construction; per-element SMT equivalence (exact, or 1e-9 margin for binary64-folded Gauss weights)',
    text='For 30 sample constructions (62 thorough): plain gauss/uniform/bezier samples on line, square and triangle meshes, element slices, products over two spaces, unions, take_elements, point subsets, custom indices, nested to depth 2 - integral(f) equals the sum over points of weight times value and eval/bind(f) lists the values at the sample\'s own points in the order getindex advertises, for ALL integrand coefficient values; getindex partitions the point numbering.',
    note='Declined: exactness of Gauss schemes for polynomials, points inside the element and weights summing to the volume (finite floating point facts about tables, nothing quantified); trimmed mosaics, located samples with weights and Sample.zip (their construction is numeric geometry).  Reference point tables are taken from Reference.getpoints (environment data).  Observed, undocumented: take_elements on a union groups the taken elements by operand; the reference follows that.'),
+ 'C17': dict(level='other', design='4/C17',
+   technique='the real hashing code executed with hashlib replaced by a recorder; collision freedom of the recorded pre-image structure decided by z3 sequence theory under an ideal SHA-1 (digest equal => pre-image equal), leaves constrained to the language of their encoder',
+   text='For 41 value skeletons (scalars, None/Ellipsis/types, tuples/lists/sets/dicts incl. empty and nested, namedtuple, dataclass, Immutable subclasses incl. same-named classes, frozendict, frozenmultiset) and all pairs of them (all same-skeleton pairs + 32 type-confusion pairs + 120 sampled in quick; all 861 in thorough) z3 shows that two different values cannot have equal top-level hash pre-images unless SHA-1 itself collides; order independence of dict/set/multiset is inside the same queries.',
+   note='Auxiliary (concrete, labelled): keyword/positional construction, int32/int64 arraydata, numpy scalars, commutative operands, pickle round trip, other process and PYTHONHASHSEED.  Declined: identity of interned objects over allocation/GC histories; SHA-1 itself.  Leaf texts are bounded to 8 characters; repr(float) is treated as an injective text.  Seekable streams (pos ++ content ambiguity) are not among the immutable nutils values the property names.'),
 }
 
 NOT_APPLICABLE = {
